@@ -4,7 +4,7 @@
 #   tools/seedall.sh K N        stream K of N (run N of them in parallel), log /tmp/seedall.K.log
 #   tools/seedall.sh summary    builds seeded/SUMMARY.txt from /tmp/seedall.*.log
 cd /verif
-declare -A EXTRA=( [C01-12]="C01,C16" [C01-4]="C01,C17" [C02-7]="C02,C01" [C02-8]="C02,C01" [C03-1]="C03,C10" [C03-3]="C03,C16" [C03-8]="C03,C10" [C03-9]="C03,C19" [C04-1]="C04,C05,C10" [C04-3]="C04,C19" [C04-4]="C04,C03" [C04-7]="C04,C10" [C04-8]="C04,C19" [C05-4]="C05,C10" [C05-7]="C05,C19" [C07-7]="C07,C17" [C08-12]="C08,C09" [C09-8]="C09,C07" [C15-8]="C15,C03" [C17-7]="C17,C01,C09" )
+declare -A EXTRA=( [C01-12]="C01,C16" [C01-4]="C01,C17" [C02-7]="C02,C01" [C02-8]="C02,C01" [C03-1]="C03,C10" [C03-3]="C03,C16" [C03-8]="C03,C10" [C03-9]="C03,C19" [C04-1]="C04,C05,C10" [C04-3]="C04,C19" [C04-4]="C04,C03,C05" [C04-7]="C04,C10" [C04-8]="C04,C19" [C05-4]="C05,C10" [C05-7]="C05,C19" [C07-7]="C07,C17" [C08-12]="C08,C09" [C09-8]="C09,C07" [C15-8]="C15,C03" [C17-7]="C17,C01,C09" )
 if [ "$1" = summary ]; then
   cat /tmp/seedall.*.log | grep -E "^C[0-9]+ [0-9]|check" > /tmp/seedall.sum
   python3 - <<'P'
